@@ -1,6 +1,158 @@
 import TxV.Proofs.POAllocator
+/-!
+# C26 — PreservedOrderAllocator tracks allocation order
+
+"For every call history that only frees allocated identifiers (and indices below the used count),
+order is always a permutation whose first used entries are the allocated identifiers from oldest to
+newest; alloc returns a free identifier and is ready iff one exists; free/free_idx remove exactly the
+designated identifier; clear restores the initial state."
+
+All theorems hold for every entry count `n`.  `Inv n s`: `order` is a permutation of `range n` and
+`used ≤ n`; `allocated s = order.take used`.  `EnvOk s i` (environment hypothesis for one cycle):
+`free(ident)` only with `ident ∈ allocated s` and not together with `free_idx` (both call the
+exclusive `free_idx`; the winner is not specified by the source), `free_idx(idx)` only with
+`idx < used`.  `Reach n s A` quantifies over all histories from reset (simultaneous alloc and free
+included); `A` is the list of allocated identifiers, oldest first, rebuilt from the observations.
+-/
 namespace TxV.POAllocator
--- OBLIGATION c26_stub : placeholder
-theorem c26_stub : (1:Nat) = 1 := rfl
+
+-- OBLIGATION c26_history : for every history from reset that only frees allocated identifiers / indices below the used count, order is a permutation of range(entries), used ≤ entries, and its first used entries are exactly the allocated identifiers from oldest to newest (bookkeeping list rebuilt from the observed calls)
+theorem c26_history (n : Nat) (s : State) (A : List Nat) (h : Reach n s A) :
+    s.order.Perm (List.range n) ∧ s.used ≤ n ∧ s.order.take s.used = A ∧ A.length = s.used := by
+  obtain ⟨hI, hA⟩ := reach_inv h
+  exact ⟨hI.1, hI.2, hA, by rw [← hA, allocated_length hI]⟩
+
+-- OBLIGATION c26_inv : one cycle (any combination of alloc, free or free_idx, order, clear) preserves the invariant under the environment hypotheses
+theorem c26_inv (n : Nat) (s : State) (i : In) (hI : Inv n s) (hE : EnvOk s i) : Inv n (step n s i).1 :=
+  inv_step hI hE
+
+-- OBLIGATION c26_alloc : alloc executes iff attempted and used ≠ entries, which holds iff a free identifier exists; the returned identifier is order[used], below entries and not allocated
+theorem c26_alloc (n : Nat) (s : State) (i : In) (hI : Inv n s) :
+    (((step n s i).2.alloc ≠ none) ↔ (i.alloc = true ∧ s.used ≠ n)) ∧
+    (s.used ≠ n ↔ ∃ id, id < n ∧ id ∉ allocated s) ∧
+    (∀ id, (step n s i).2.alloc = some id → s.order[s.used]? = some id ∧ id < n ∧ id ∉ allocated s) := by
+  have hlen := inv_length hI
+  have hnd := inv_nodup hI
+  have hout : (step n s i).2.alloc = if (i.alloc && (s.used != n)) then some (arrayRead s.order s.used) else none := rfl
+  -- the entry at position `used` is outside the allocated prefix
+  have fresh : ∀ (h : s.used < s.order.length), s.order[s.used] < n ∧ s.order[s.used] ∉ allocated s := by
+    intro h
+    constructor
+    · have : s.order[s.used] ∈ List.range n := (hI.1.mem_iff).mp (List.getElem_mem h)
+      simpa using this
+    · intro hm
+      obtain ⟨j, hj⟩ := List.mem_iff_getElem?.mp hm
+      simp only [allocated, List.getElem?_take] at hj
+      split at hj
+      · rename_i hju
+        have hjl : j < s.order.length := by have := hI.2; omega
+        have := (List.getElem?_inj (i := j) (j := s.used) hjl hnd).mp (by rw [hj, List.getElem?_eq_getElem h])
+        omega
+      · cases hj
+  refine ⟨?_, ?_, ?_⟩
+  · rw [hout]
+    by_cases h1 : i.alloc = true <;> by_cases h2 : s.used = n <;> simp [h1, h2]
+  · constructor
+    · intro hne
+      have hlt : s.used < s.order.length := by have := hI.2; omega
+      exact ⟨s.order[s.used], (fresh hlt).1, (fresh hlt).2⟩
+    · rintro ⟨id, hid, hna⟩ heq
+      apply hna
+      have : allocated s = s.order := by
+        simp only [allocated]; rw [heq, ← hlen]; exact List.take_length
+      rw [this]
+      exact (hI.1.mem_iff).mpr (by simpa using hid)
+  · intro id h
+    rw [hout] at h
+    by_cases ha : (i.alloc && (s.used != n)) = true
+    · rw [if_pos ha] at h
+      simp only [Bool.and_eq_true, bne_iff_ne] at ha
+      have hlt : s.used < s.order.length := by have := hI.2; omega
+      simp only [arrayRead, List.getElem?_eq_getElem hlt, Option.some.injEq] at h
+      subst h
+      exact ⟨List.getElem?_eq_getElem hlt, (fresh hlt).1, (fresh hlt).2⟩
+    · rw [if_neg ha] at h; cases h
+
+-- OBLIGATION c26_free_idx : an executed free_idx(idx) with idx < used removes exactly the identifier at position idx of the allocated list, keeps the order of the others, and the identifier returned by a simultaneous alloc is appended as the newest
+theorem c26_free_idx (n : Nat) (s : State) (i : In) (k : Nat) (hI : Inv n s) (hE : EnvOk s i)
+    (hc : i.clear = false) (hf : i.free = none) (hx : i.freeIdx = some k) :
+    allocated (step n s i).1 =
+      (allocated s).eraseIdx k ++ (match (step n s i).2.alloc with | some id => [id] | none => []) ∧
+    (step n s i).2.freeIdx = true ∧
+    (∀ x, (allocated s)[k]? = some x → x ∉ (allocated s).eraseIdx k) := by
+  refine ⟨?_, by simp [step, hf, hx], ?_⟩
+  · rw [allocated_step hI hE hc]
+    simp only [calledIdx, hf, hx]
+    rfl
+  · intro x hxk hm
+    obtain ⟨j, hjk, hj⟩ := List.mem_eraseIdx_iff_getElem?.mp hm
+    have hjl : j < (allocated s).length := (List.getElem?_eq_some_iff.mp hj).1
+    exact hjk ((List.getElem?_inj hjl (allocated_nodup hI)).mp (by rw [hj, hxk]))
+
+-- OBLIGATION c26_free : an executed free(ident) of an allocated identifier removes exactly ident from the allocated list, keeps the order of the others, and the identifier returned by a simultaneous alloc is appended as the newest
+theorem c26_free (n : Nat) (s : State) (i : In) (id : Nat) (hI : Inv n s) (hE : EnvOk s i)
+    (hc : i.clear = false) (hf : i.free = some id) :
+    allocated (step n s i).1 =
+      (allocated s).erase id ++ (match (step n s i).2.alloc with | some x => [x] | none => []) ∧
+    (step n s i).2.free = true ∧ id ∉ (allocated s).erase id := by
+  refine ⟨?_, by simp [step, hf], ?_⟩
+  · have := ghost_agrees hI hE
+    rw [this]
+    have hcl : (step n s i).2.clear = false := by simp [step, hc]
+    simp only [ghostStep, hcl, Bool.false_eq_true, if_false, hf]
+    rfl
+  · intro hm
+    have := (List.Nodup.mem_erase_iff (allocated_nodup hI)).mp hm
+    exact this.1 rfl
+
+-- OBLIGATION c26_clear : clear always executes and restores the initial state (order = 0..entries-1, used = 0) whatever else is attempted in the cycle; without free/free_idx/clear the order array is unchanged
+theorem c26_clear (n : Nat) (s : State) (i : In) :
+    (i.clear = true → (step n s i).1 = init n ∧ (step n s i).2.clear = true) ∧
+    ((step n s i).2.clear = i.clear) ∧
+    (i.clear = false → i.free = none → i.freeIdx = none → (step n s i).1.order = s.order) := by
+  refine ⟨fun h => ⟨step_clear n s i h, by simp [step, h]⟩, rfl, ?_⟩
+  intro hc hf hx
+  simp [step, hc, hf, hx]
+
+-- OBLIGATION c26_order : the order method executes iff attempted and reports the registers used and order unchanged
+theorem c26_order (n : Nat) (s : State) (i : In) :
+    (step n s i).2.order = if i.order then some (s.used, s.order) else none := rfl
+
+/-- non-vacuity: entries = 3; allocate 0,1,2; free_idx(0) (oldest); free(2) together with alloc.  The
+    final state is reachable, the bookkeeping list is [1, 0]: identifier 0 was re-allocated as the newest. -/
+example :
+    let a : In := ⟨true, none, none, true, false⟩
+    let x : In := ⟨false, none, some 0, true, false⟩
+    let f : In := ⟨true, some 2, none, true, false⟩
+    (run 3 (init 3) [a, a, a, x, f]).1 = ⟨[1, 0, 2], 2⟩ ∧
+    ((run 3 (init 3) [a, a, a, x, f]).2.map (·.alloc)) = [some 0, some 1, some 2, none, some 0] := by
+  decide
+
+example : Reach 3 ⟨[1, 0, 2], 2⟩ [1, 0] := by
+  let a : In := ⟨true, none, none, true, false⟩
+  let x : In := ⟨false, none, some 0, true, false⟩
+  let f : In := ⟨true, some 2, none, true, false⟩
+  have r1 := Reach.step a (Reach.init (n := 3)) (by decide) (by decide)
+  have r2 := Reach.step a r1 (by decide) (by decide)
+  have r3 := Reach.step a r2 (by decide) (by decide)
+  have r4 := Reach.step x r3 (by decide) (by decide)
+  have r5 := Reach.step f r4 (by decide) (by decide)
+  have e1 : (step 3 (step 3 (step 3 (step 3 (step 3 (init 3) a).fst a).fst a).fst x).fst f).fst = ⟨[1, 0, 2], 2⟩ := by
+    decide
+  have e2 : (ghostStep (ghostStep (ghostStep (ghostStep (ghostStep [] a (step 3 (init 3) a).snd) a
+      (step 3 (step 3 (init 3) a).fst a).snd) a (step 3 (step 3 (step 3 (init 3) a).fst a).fst a).snd) x
+      (step 3 (step 3 (step 3 (step 3 (init 3) a).fst a).fst a).fst x).snd) f
+      (step 3 (step 3 (step 3 (step 3 (step 3 (init 3) a).fst a).fst a).fst x).fst f).snd) = [1, 0] := by
+    decide
+  rw [e1, e2] at r5
+  exact r5
+
 end TxV.POAllocator
-#print axioms TxV.POAllocator.c26_stub
+
+#print axioms TxV.POAllocator.c26_history
+#print axioms TxV.POAllocator.c26_inv
+#print axioms TxV.POAllocator.c26_alloc
+#print axioms TxV.POAllocator.c26_free_idx
+#print axioms TxV.POAllocator.c26_free
+#print axioms TxV.POAllocator.c26_clear
+#print axioms TxV.POAllocator.c26_order
